@@ -431,7 +431,7 @@ func runC18(r *core.Run) {
 	scratch := filepath.Join(r.Root, ".scratch", fmt.Sprintf("c18-%d", os.Getpid()))
 	os.MkdirAll(scratch, 0o755)
 	defer os.RemoveAll(scratch)
-	core.Clause(r, "files", core.Opts{Rule: "File (and SAM FileHeader) of every format on every medium corpus file and one file ending in an error, plain and .gz, every stop position, both forms; non-trivial = at least 2 items"},
+	core.Clause(r, "files", core.Opts{Rule: "File (and SAM FileHeader) of every format on every medium corpus file, files ending in an error, files that begin with the magic number of another file type or with a broken gzip header (under a plain name these are data), plain and .gz, every stop position, both forms; non-trivial = at least 2 items"},
 		func(emit func(c18File) bool) {
 			for _, f := range formats {
 				for i := range corpus(f.Name, "medium") {
@@ -439,7 +439,7 @@ func runC18(r *core.Run) {
 						emit(c18File{f.Name, fmt.Sprint("medium/", i), gz})
 					}
 				}
-				for _, what := range []string{"error", "error-middle", "longline", "large"} {
+				for _, what := range append(fileBeginningNames(), "error", "error-middle", "longline", "large", "gzip-magic", "gzip-bytes", "zstd-magic") {
 					for _, gz := range []bool{false, true} {
 						emit(c18File{f.Name, what, gz})
 					}
